@@ -580,6 +580,7 @@ func c07Edges(cfg Config, res *Result) {
 
 func suiteC07(cfg Config, res *Result) {
 	defer c07Debug(res)
+	defer evalTrace(res, "semantics", "c07-evaluation-order")
 	defer c07ZeroDivisors(res)
 	defer routesAgree(res, "semantics", "c07-routes", []string{
 		"{{ 7 - 2 * 3 }}|{% if 1 < 2 && a %}T{% else %}F{% endif %}|{{ 2 ^ 3 ^ 2 }}|{{ 9 / 2.0 }}|{{ \"a\" + 1 }}",
